@@ -1,3 +1,21 @@
+# C14 - bounces: qmail-send.c addbounce()/stripvdomprepend() (what is appended to bounce/N) and injectbounce()
+# (to whom / from whom the notice goes, when bounce/N is removed, chain step).
+#
+# kills (hand-made mutants of /repo in a scratch worktree; each reported as VIOLATION with a native replay, rc 1):
+#   addbounce():        recipient LF -> '_' replacement dropped                      addbounce C14(1) LF in the recipient
+#                       second LF -> '/' replacement dropped                         addbounce C14(3) forged paragraph
+#                       '/' loop stops early (`pos > 0` -> `pos > 4`)                addbounce C14(3)
+#                       final stralloc_cats("\n") dropped (no terminating empty line) addbounce (shape of the appended text)
+#   stripvdomprepend(): `if (recip[i] != '-') break;` dropped                        addbounce C14(1) prepend / over-read (RL<=2)
+#   injectbounce():     `if (*qmail_close(&qqt))` result ignored                     injectbounce (removed only after close == "")
+#                       unlink(fn2.s) inserted before qmail_from()                   injectbounce (unlink order)
+#                       double bounce sent with sender "" instead of "#@[]"          injectbounce SL=0 + bounce_chain STEP 2
+#                       "#@[]" no longer discarded (`if (0)`)                        injectbounce SL=4 + bounce_chain STEP 3
+#                       VERP suffix not stripped (`if (sender.len >= 5)` -> `if (0)`) injectbounce SL=8 (pre@host)
+#                       single bounce sent with a non-empty envelope sender          bounce_chain STEP 1 (sender "" or #@[])
+#   qmail.c:            qmail_close `case 0: if (!qq->flagerr) return ""` -> `return ""` qmail_envelope (success after qmail_fail)
+#                       qmail_from: close(qq->fdm) dropped                            qmail_envelope (message EOF before envelope)
+#                       qmail_to writes "R" instead of "T"                            qmail_envelope (envelope format)
 from vlib import Obl, Prog
 
 STRALLOC = ["stralloc_opys.c", "stralloc_opyb.c", "stralloc_cats.c", "stralloc_catb.c", "stralloc_pend.c", "byte_copy.c"]
@@ -12,20 +30,22 @@ def obligations(tier):
     ab_grid += [{"RL": 1, "PL": 2, "WT": 1}, {"RL": 3, "PL": 1, "WT": 1}]
     inj = dict(
         progs=[Prog("qmail-send.c", nomain=True, cut=["getinfo"])],
-        repo=STRALLOC + FMT + ["stralloc_copy.c", "stralloc_cat.c", "str_rchr.c", "open_read.c", "quote.c", "substdio.c"],
+        repo=STRALLOC + FMT + ["open_read.c", "substdio.c"],
         lib=["ideal_substdio.c", "harness/C14/arena1d.c"],
         defines={"ARENA_CAP": 64, "ARENA_SLOTS": 8},
         sysrename=["stat", "open", "close", "unlink", "time", "strlen", "strcmp"],
-        unwind_default=lambda p: 2 * p["SL"] + 12,
+        # lengths are symbolic for symex (only SAT knows strlen <= SL), so every loop over a string is unrolled to its
+        # bound: keep the bounds exact (unwinding assertions prove them) - with 2*SL+12 everywhere the SL=4 query had 830k steps
+        unwind_default=lambda p: max(p["SL"], 3) + 3,
         unwind=lambda p: {"injectbounce~nomem()": 1, "fnmake_init~nomem()": 1, "vf_strlen": 261, "vf_strcmp": 17,
-                          "substdio_get": 4, "fmt_ulong": 5, "quote_need~for (i = 0;i < n;++i)": p["SL"] + 15},
+                          "substdio_get": 4, "fmt_ulong": 5, "fmt_str": 9, "path_is": 13, "qmail_from": 9,
+                          "byte_copy": max(p["SL"], 8) + 2, "injectbounce~while ((r = substdio_get": 4},
         timeout=900,
-        functions=["qmail-send.c:injectbounce", "qmail-send.c:fnmake2_bounce", "qmail-send.c:fnmake_mess", "quote.c:quote2", "quote.c:quote",
-                   "quote.c:quote_need", "quote.c:doit", "fmtqfn.c:fmtqfn", "open_read.c:open_read", "substdio.c:substdio_fdbuf"],
+        functions=["qmail-send.c:injectbounce", "qmail-send.c:fnmake2_bounce", "qmail-send.c:fnmake_mess", "fmtqfn.c:fmtqfn", "open_read.c:open_read", "substdio.c:substdio_fdbuf"],
         cuts=["getinfo -> returns the symbolic envelope sender (or fails)",
               "qmail_open/qp/put/from/to/fail/close (qmail.c) -> observing stubs; close returns \"\" iff no qmail_fail and qmail-queue "
-              "succeeded (symbolic) - the contract of qmail.c:qmail_close",
-              "newfield_datemake -> fixed Date line"],
+              "succeeded (symbolic) - contract proved on the real qmail.c by obligation qmail_envelope",
+              "newfield_datemake -> fixed Date line", "quote/quote2 -> fixed text (header formatting only; quoting is C17's)"],
         stubs=["stat/open/close/unlink/time: syscall stubs; stat: ok/ENOENT/EIO, open of either file may fail, unlink may fail (symbolic)",
                "substdio_get: ideal stream over 2-byte bounce/N and mess/N with an optional read error; strlen/strcmp: bounded byte loops",
                "log1/log3/qslog2: no-ops; stralloc_ready/readyplus: arena"],
@@ -50,6 +70,23 @@ def obligations(tier):
             expect_witnesses=lambda p: {1: ["single_bounce_sent", "verp_bounce_sent", "queued_and_removed"],
                                         2: ["double_bounce_sent", "queued_and_removed"],
                                         3: ["double_bounce_discarded"]}[p["STEP"]], **inj),
+        Obl("qmail_envelope", "qq.c",
+            repo=["qmail.c", "substdio.c"], lib=["ideal_substdio.c"],
+            sysrename=["close"],
+            grid=[{"FL": 0, "TL": 2}, {"FL": 4, "TL": 3}],
+            unwind_default=lambda p: p["FL"] + p["TL"] + 6,
+            unwind={"strlen": 8, "qmail_errstr": 5},
+            timeout=600,
+            functions=["qmail.c:qmail_put", "qmail.c:qmail_fail", "qmail.c:qmail_from", "qmail.c:qmail_to", "qmail.c:qmail_close",
+                       "qmail.c:qmail_errstr", "substdio.c:substdio_fdbuf"],
+            stubs=["substdio: ideal streams, the k-th written byte may fail (symbolic k); close: records; wait_pid: symbolic status or failure",
+                   "qmail_open: replaced by the struct state it leaves (pipes/fork/exec are outside)"],
+            assumes=["sender FL, recipient TL non-NUL bytes; 2 body bytes; qmail-queue's error text <= 3 bytes, starting with D or Z when it exits 82"],
+            outside=["qmail_open (pipe/fork/exec)", "a child exiting 82 with an error string that starts with NUL"],
+            claim="discharges the cut used by injectbounce: qmail_close() returns \"\" only if no qmail_fail, no failed write, child waited for, "
+                  "not crashed, exit 0, and then descriptor 1 received exactly F<sender>NUL T<recipient>NUL NUL after the message descriptor "
+                  "was closed; otherwise a Z.../D... string",
+            expect_witnesses=["queued", "failed_by_caller", "failed_by_write", "qq_crashed", "qq_custom_error"]),
         Obl("addbounce", "addbounce.c",
             progs=[Prog("qmail-send.c", nomain=True)],
             repo=STRALLOC + FMT + ["str_rchr.c", "open_append.c"],
@@ -80,7 +117,7 @@ def obligations(tier):
             + (["recipient_with_lf"] if p["RL"] >= 1 else [])
             + (["vdom_prepend_stripped", "vdom_entry_not_applicable"] if p["RL"] >= 3 else [])
             + (["prepend_beyond_local_part"] if p["RL"] >= 2 else [])
-            + (["wildcard_entry"] if p["RL"] >= 5 else [])
+            + (["wildcard_entry"] if p["RL"] >= 6 else [])
             + (["report_ends_in_two_lf"] if p["PL"] >= 2 else [])
             + (["report_with_blank_lines"] if p["PL"] >= 3 else [])),
     ]
